@@ -322,7 +322,9 @@ bool FileManager::readStream(std::istream &_istream, MeshT &_mesh,
         }
     }
 
-    while(!_istream.eof()) {
+    // stop at the end of the file and as soon as the stream fails (e.g. a
+    // property value that cannot be parsed): a failed stream never reaches eof
+    while(_istream.good()) {
         // "End of file reached while searching for input!"
         // is thrown here. \TODO Fix it!
 
